@@ -124,6 +124,29 @@ func tsOf(in input) ledger.Time {
 	return ledger.Time{Time: t.UTC()}
 }
 
+// tsAsParsed is the timestamp as a controller hands it on: the real ParseTime keeps the zone offset the client wrote
+// (tsOf is the harness's own reading of the instant, in UTC)
+func tsAsParsed(in input) ledger.Time {
+	if in.Timestamp == "" {
+		return ledger.Time{}
+	}
+	t, err := ledger.ParseTime(in.Timestamp)
+	if err != nil {
+		return tsOf(in)
+	}
+	return t
+}
+
+func zoneClass(in input) string {
+	switch {
+	case in.Timestamp == "":
+		return "no-timestamp"
+	case strings.HasSuffix(in.Timestamp, "Z") || strings.HasSuffix(in.Timestamp, "+00:00"):
+		return "utc"
+	}
+	return "numeric-zone-offset"
+}
+
 func metaOf(in input) metadata.Metadata {
 	if in.Metadata == nil {
 		return nil
@@ -428,7 +451,7 @@ func doScript(r *vx.Run, in input) {
 		}
 	}
 	size := len(in.Postings)
-	txData := ledger.TransactionData{Postings: toPostings(in.Postings), Metadata: metaOf(in), Reference: in.Reference, Timestamp: tsOf(in)}
+	txData := ledger.TransactionData{Postings: toPostings(in.Postings), Metadata: metaOf(in), Reference: in.Reference, Timestamp: tsAsParsed(in)}
 	var rs ledger.RunScript
 	pan := ""
 	func() {
@@ -479,6 +502,9 @@ func doScript(r *vx.Run, in input) {
 			if !metaEqual(ob.ResMeta, metaOf(in)) {
 				r.FailP("C09", "metadata:not-passed-through", in, fmt.Sprintf("%v vs %v", ob.ResMeta, in.Metadata), size)
 			}
+			if diffClass(ob.Postings, in.Postings) == "" {
+				committedJSON(r, in, in, rs, in.Postings, "direct")
+			}
 			if !valid {
 				r.FailP("C09", "validation:invalid-posting-committed", in, "", size)
 			} else if !covered(in.Postings, in.Balances, in.Unbounded) {
@@ -527,6 +553,108 @@ func doScript(r *vx.Run, in input) {
 		coqSPostings(in.Postings), ps, vx.CoqBool(in.Unbounded), script, vars, vx.CoqList(bal), vx.CoqList(extra), prog, coqRun(n, ob))
 	key, _ := json.Marshal(in)
 	r.Case(c, in, string(key), ob.Stage == "done" || ob.Class == "EInsufficient")
+}
+
+// plenty: every ordinary source holds the sum of everything the request takes from it
+func plenty(ps []sPosting) map[string]map[string]string {
+	need := map[string]map[string]*big.Int{}
+	for _, p := range ps {
+		a := amountOf(p)
+		if a == nil || string(p.Source) == "world" {
+			continue
+		}
+		if need[string(p.Source)] == nil {
+			need[string(p.Source)] = map[string]*big.Int{}
+		}
+		cur := need[string(p.Source)][string(p.Asset)]
+		if cur == nil {
+			cur = big.NewInt(0)
+		}
+		need[string(p.Source)][string(p.Asset)] = new(big.Int).Add(cur, new(big.Int).Abs(a))
+	}
+	out := map[string]map[string]string{}
+	for a, m := range need {
+		out[a] = map[string]string{}
+		for s, v := range m {
+			out[a][s] = v.String()
+		}
+	}
+	return out
+}
+
+// committedJSON: the transaction the engine builds from a RunScript and the postings of the run (commander.exec:
+// WithPostings / WithMetadata / WithDate / WithReference), through the REAL JSON encoding of the API response
+// (Transaction) and of the log payload InsertLogs writes (NewTransactionLogPayload, read back with HydrateLog):
+// decoded again it must carry the requested instant, reference, metadata and postings. Instants are compared with
+// time.Time.Equal on parsed values, never as text.
+func committedJSON(r *vx.Run, in input, req input, rs ledger.RunScript, posts []sPosting, via string) {
+	ps := toPostings(posts)
+	for _, p := range ps {
+		if p.Amount == nil {
+			return
+		}
+	}
+	tx := ledger.NewTransaction().WithPostings(ps...).WithMetadata(rs.Metadata).WithDate(rs.Timestamp).WithIDUint64(0).WithReference(rs.Reference)
+	check := func(form string, back *ledger.Transaction) {
+		size := len(posts)
+		if req.Timestamp != "" && !back.Timestamp.Time.Equal(tsOf(req).Time) {
+			r.FailP("C09", "committed-json:"+via+":"+form+":timestamp-is-another-instant:"+zoneClass(req), in,
+				fmt.Sprintf("requested %s, the encoded transaction reads %s", req.Timestamp, back.Timestamp.Time.Format(time.RFC3339Nano)), size)
+		}
+		if back.Reference != req.Reference {
+			r.FailP("C09", "committed-json:"+form+":reference-changed:"+via, in, back.Reference, size)
+		}
+		if !metaEqual(back.Metadata, metaOf(req)) {
+			r.FailP("C09", "committed-json:"+form+":metadata-changed:"+via, in, fmt.Sprint(back.Metadata), size)
+		}
+		same := len(back.Postings) == len(posts)
+		for i := 0; same && i < len(posts); i++ {
+			same = samePostingL(back.Postings[i], posts[i])
+		}
+		if !same {
+			r.FailP("C09", "committed-json:"+form+":postings-changed:"+via, in, fmt.Sprint(back.Postings), size)
+		}
+	}
+	if b, err := json.Marshal(tx); err == nil {
+		var back ledger.Transaction
+		if err := json.Unmarshal(b, &back); err != nil {
+			r.FailP("C09", "committed-json:response:not-readable:"+zoneClass(req)+":"+via, in, err.Error()+" "+string(b), len(posts))
+		} else {
+			check("response", &back)
+		}
+	}
+	log := ledger.NewTransactionLog(tx, map[string]metadata.Metadata{})
+	if b, err := json.Marshal(log.Data); err == nil {
+		pl, err := ledger.HydrateLog(ledger.NewTransactionLogType, b)
+		if err != nil {
+			r.FailP("C09", "committed-json:log-payload:not-readable:"+zoneClass(req)+":"+via, in, err.Error()+" "+string(b), len(posts))
+		} else if np, ok := pl.(ledger.NewTransactionLogPayload); ok && np.Transaction != nil {
+			check("log", np.Transaction)
+		} else if np, ok := pl.(*ledger.NewTransactionLogPayload); ok && np.Transaction != nil {
+			check("log", np.Transaction)
+		}
+	}
+}
+
+// backendRun: the RunScript the backend received for a valid posting request, run by the real compiler and machine on
+// balances that cover it, must commit exactly the postings of the REQUEST (the handler oracle otherwise only compares
+// with TxToScriptData, which is itself under test)
+func backendRun(r *vx.Run, in input, req input, rs ledger.RunScript, via string) {
+	if len(req.Postings) == 0 || !allValid(req.Postings) {
+		return
+	}
+	ob := runScript(rs, plenty(req.Postings))
+	size := len(req.Postings)
+	switch {
+	case ob.Panic != "":
+		r.FailP("C09", via+":run-of-received-script:panic", in, ob.Panic, size)
+	case ob.Stage != "done":
+		r.FailP("C09", via+":run-of-received-script:covered-request-rejected:"+ob.Stage+":"+ob.Class, in, "", size)
+	default:
+		if d := diffClass(ob.Postings, req.Postings); d != "" {
+			r.FailP("C09", via+":run-of-received-script:exact:"+d, in, fmt.Sprintf("committed %v for request %v", showPostings(ob.Postings), req.Postings), size)
+		}
+	}
 }
 
 func samePostingL(p ledger.Posting, q sPosting) bool {
@@ -773,6 +901,8 @@ func doBulk(r *vx.Run, in input) {
 				fmt.Sprintf("element %d of %d: backend received %+v", i, len(in.Elements), *w.Script), size)
 			continue
 		}
+		backendRun(r, in, e, *w.Script, "bulk")
+		committedJSON(r, in, e, *w.Script, e.Postings, "bulk")
 		hasScript := e.Script != nil && *e.Script != ""
 		r.Case(fmt.Sprintf("PCHandler ApiBulk %s %s %s", coqSPostings(e.Postings), vx.CoqBool(hasScript), res), in,
 			fmt.Sprintf("%s#%d", key, i), res == "HPostings")
@@ -840,6 +970,10 @@ func doHandler(r *vx.Run, in input) {
 	if in.API == "v1" && res == "HPostings" && !allValid(in.Postings) {
 		r.FailP("C09", "handler:v1:invalid-posting-reaches-backend", in, "", size)
 	}
+	if res == "HPostings" || res == "HScript" {
+		backendRun(r, in, in, *l.Writes[0].Script, "handler:"+in.API)
+		committedJSON(r, in, in, *l.Writes[0].Script, in.Postings, "handler:"+in.API)
+	}
 	r.Count("handler:" + in.API + ":" + res)
 	if res == "" {
 		r.Case("", in, "", false)
@@ -855,7 +989,9 @@ func doHandler(r *vx.Run, in input) {
 
 // ---- generators --------------------------------------------------------------------------------------------------
 
-var goodAcc = []string{"world", "world", "a", "b", "c", "users:001", "users:002", "bank", "a-b:c_d", "A_1", "x:y:z", "0", "_", "orders:1234:payment-1", "world1", "worl"}
+var goodAcc = []string{"world", "world", "a", "b", "c", "users:001", "users:002", "bank", "a-b:c_d", "A_1", "x:y:z", "0", "_", "orders:1234:payment-1", "world1", "worl",
+	"World", "WORLD", "wORLD", "world:x", "worldx", "xworld", "x:world"}
+var nearWorld = []string{"World", "WORLD", "wORLD", "wOrld", "world:x", "worldx", "xworld", "x:world", "world_", "worlD"}
 var badAcc = []string{"", "a:", ":a", "a--b", "a b", "a:-b", "a-", "-a", "é", "a::b", "wor ld", "$x", "a\nb", "a.b", "@a", "a:b:", " world", "world "}
 var rawAcc = []string{"a\xffb", "\x00", "a\x80"}
 var goodAsset = []string{"USD", "USD", "EUR/2", "A", "ABCDEFGHIJKLMNOPQ", "X9/123456", "COIN", "USD/0", "B2"}
@@ -945,6 +1081,13 @@ func (g *gen) postings(n, k, badRate int, raw, allowNil bool) []sPosting {
 		}
 		if k > 8 && i < k { // many distinct accounts: numbering past va9
 			dst = accs[1+i%k]
+		}
+		// ordinary accounts whose address is "world" up to letter case, or contains it: never the world account
+		if g.r.Chance(1, 8) {
+			src = g.pick(nearWorld)
+		}
+		if g.r.Chance(1, 8) {
+			dst = g.pick(nearWorld)
 		}
 		amt := g.pick(amts)
 		if g.r.Chance(1, 4) {
@@ -1049,7 +1192,9 @@ func (g *gen) envelope(in *input) {
 		in.Reference = g.pick([]string{"ref-1", "r", "order:42"})
 	}
 	if g.r.Chance(1, 2) {
-		in.Timestamp = g.pick([]string{"2023-01-02T03:04:05Z", "2021-12-31T23:59:59.123456Z", "2024-02-29T12:00:00+02:00"})
+		in.Timestamp = g.pick([]string{"2023-01-02T03:04:05Z", "2021-12-31T23:59:59.123456Z", "2024-02-29T12:00:00+02:00",
+			"2023-03-04T10:00:00+02:00", "2023-03-04T10:00:00.123456+02:00", "2022-07-01T23:30:00-05:00", "2022-07-01T23:30:00.5-05:00",
+			"2024-02-29T12:00:00.000001+05:30", "1999-12-31T23:59:59.999999-11:00", "2023-06-15T00:00:00+00:00", "2023-06-15T08:15:00.25Z"})
 	}
 }
 
